@@ -41,13 +41,17 @@
                                                length inside { } [ ] ( ), LF or CRLF, with or without final line
                                                end), parse bs returns, without errors, a tree that joins to t
      C02_rendered_is_layout                    render cs t is such a layout when last_comment_ok t
-   For ARBITRARY SOURCES (not only rendered ones): the tree of an error-free source without CR is a tree of the grammar
-   and every re-layout of it parses back to it (Syntax/ParserLines.v: a new invariant of the pattern loop):
-     C02_errorfree_source_tree_wellformed_partial   utf8_valid bs, nocr bs, parse bs = Done (t, []) and comments_nonempty t
-                                               (executable: every comment has a line) imply wf_resource and
-                                               wf_utf8_resource of the joined tree
-     C02_relayout_errorfree_source_partial     ... and then parse (render cs (joined t)) joins to the joined t again, for
-                                               EVERY layout cs (premise last_comment_ok as everywhere)
+   For ARBITRARY SOURCES (not only rendered ones): the tree of an error-free source without a lone CR (every CR is
+   followed by LF: LF or CR LF line ends; ParserLines.no_lone_cr, executable) is a tree of the grammar and every
+   re-layout of it parses back to it (Syntax/ParserLines.v: a new invariant of the pattern loop):
+     C02_errorfree_source_tree_wellformed_crlf_partial   utf8_valid bs, no_lone_cr bs, parse bs = Done (t, []) and
+                                               comments_nonempty t (executable: every comment has a line) imply
+                                               wf_resource and wf_utf8_resource of the joined tree
+     C02_relayout_errorfree_source_crlf_partial   ... and then parse (render cs (joined t)) joins to the joined t again,
+                                               for EVERY layout cs (premise last_comment_ok as everywhere)
+     C02_errorfree_source_tree_wellformed_partial, C02_relayout_errorfree_source_partial   the special case nocr bs (no
+                                               CR at all) of the two
+   Not covered: sources with a CR that is not followed by LF (Render.v leaves the lone CR out of the grammar).
    and the rendered source is a Rust str, so that C01 applies to it:
      C02_rendered_source_is_utf8               wf_utf8_resource t -> utf8_valid (render cs t) (Syntax/RenderFacts.v)
    How: the fragments nest_resource d below (RoundTripNest.v; d = nesting depth) extend sel_resource d by NESTED
@@ -208,25 +212,37 @@ Theorem C02_rendered_is_layout :
   forall d cs t, nest_resource d t = true -> last_comment_ok t = true -> nest_layout d t (render cs t).
 Proof. exact render_nest_layout. Qed.
 
-(* ... and the converse direction, for arbitrary sources: the tree the parser returns for an error-free source without CR
-   is a tree of the grammar (well-formed when joined; Syntax/ParserWf.v, ParserLines.v), so every re-layout of it
+(* ... and the converse direction, for arbitrary sources: the tree the parser returns for an error-free source without
+   a lone CR (every CR is followed by LF) is a tree of the grammar (well-formed when joined; Syntax/ParserWf.v, ParserLines.v), so every re-layout of it
    parses back to it: the tree of a source does not depend on its layout.  comments_nonempty: every comment has a line
    (executable; excludes exactly the zero-line comment of finding D7). *)
+Theorem C02_errorfree_source_tree_wellformed_crlf_partial :
+  forall bs t, utf8_valid bs = true -> no_lone_cr bs = true -> parse bs = Done (t, []) -> comments_nonempty t = true ->
+  wf_resource (map join_entry t) = true /\ wf_utf8_resource (map join_entry t) = true.
+Proof.
+  intros bs t Hb Hn Hp Hc. split; [apply (parse_wf_errorfree_crlf bs t Hp Hn Hc) | apply join_utf8, (parse_utf8 bs t [] Hb Hp)].
+Qed.
+
+Theorem C02_relayout_errorfree_source_crlf_partial :
+  forall bs t cs, utf8_valid bs = true -> no_lone_cr bs = true -> parse bs = Done (t, []) -> comments_nonempty t = true ->
+  last_comment_ok (map join_entry t) = true ->
+  exists t', parse (render cs (map join_entry t)) = Done (t', []) /\ map join_entry t' = map join_entry t.
+Proof.
+  intros bs t cs Hb Hn Hp Hc Hl. destruct (C02_errorfree_source_tree_wellformed_crlf_partial bs t Hb Hn Hp Hc) as [Hw Hu].
+  apply (parse_render_wf cs (map join_entry t) Hw Hu Hl).
+Qed.
+
+(* the special case of a source without any CR *)
 Theorem C02_errorfree_source_tree_wellformed_partial :
   forall bs t, utf8_valid bs = true -> nocr bs = true -> parse bs = Done (t, []) -> comments_nonempty t = true ->
   wf_resource (map join_entry t) = true /\ wf_utf8_resource (map join_entry t) = true.
-Proof.
-  intros bs t Hb Hn Hp Hc. split; [apply (parse_wf_errorfree bs t Hp Hn Hc) | apply join_utf8, (parse_utf8 bs t [] Hb Hp)].
-Qed.
+Proof. intros bs t Hb Hn. apply (C02_errorfree_source_tree_wellformed_crlf_partial bs t Hb (nocr_no_lone bs Hn)). Qed.
 
 Theorem C02_relayout_errorfree_source_partial :
   forall bs t cs, utf8_valid bs = true -> nocr bs = true -> parse bs = Done (t, []) -> comments_nonempty t = true ->
   last_comment_ok (map join_entry t) = true ->
   exists t', parse (render cs (map join_entry t)) = Done (t', []) /\ map join_entry t' = map join_entry t.
-Proof.
-  intros bs t cs Hb Hn Hp Hc Hl. destruct (C02_errorfree_source_tree_wellformed_partial bs t Hb Hn Hp Hc) as [Hw Hu].
-  apply (parse_render_wf cs (map join_entry t) Hw Hu Hl).
-Qed.
+Proof. intros bs t cs Hb Hn. apply (C02_relayout_errorfree_source_crlf_partial bs t cs Hb (nocr_no_lone bs Hn)). Qed.
 
 (* the text that is parsed is a Rust str (the domain of property C01) *)
 Theorem C02_rendered_source_is_utf8 : forall cs t, wf_utf8_resource t = true -> utf8_valid (render cs t) = true.
